@@ -296,7 +296,12 @@ func init() {
 		return nil
 	})
 	reg("Tag", func(in *Interp, fr *frame, a []Value) Value {
-		in.m.tags = append(in.m.tags, strArg(a[0])+"="+strArg(a[1]))
+		val := a[1].(Str)
+		txt := val.S
+		if !val.IsConc() {
+			txt = val.String() // symbolic parts rendered as placeholders
+		}
+		in.m.tags = append(in.m.tags, strArg(a[0])+"="+txt)
 		return nil
 	})
 	reg("KnownClass", func(in *Interp, fr *frame, a []Value) Value {
